@@ -570,10 +570,22 @@ func checkConsultQuorum(r *Run, p *Prog) {
 			okRet = ev != nil
 			why = "every return is the Send error"
 			nRet := 0
+			lc := p.CFG(l)
+			var nilVis map[Point]bool
+			if ev != nil {
+				_, nilVis = lc.ReachAvoiding([]Point{lc.Entry()}, errNilEdges(lc, ev), nil)
+			}
 			inspectNoLit(l.Body, func(x ast.Node) bool {
 				if ret, ok := x.(*ast.ReturnStmt); ok {
 					nRet++
-					if len(ret.Results) != 1 || objOf(l, ret.Results[0]) != ev {
+					good := len(ret.Results) == 1 && objOf(l, ret.Results[0]) == ev
+					// "return nil" on the edge where the Send error is nil is the same value
+					if !good && len(ret.Results) == 1 && isNilIdent(l, ret.Results[0]) && nilVis != nil {
+						if rp, found := lc.Locate(ret); found && !nilVis[rp] {
+							good = true
+						}
+					}
+					if !good {
 						okRet = false
 						why = "a goroutine path returns " + types.ExprString(ret.Results[0]) + " instead of the Send error"
 					}
